@@ -23,6 +23,18 @@ candidates ...) are excluded as well, not tested for rejection.
 The oracle inside post_source is the language's own field access / address-of; probes are non-zero-sized.
 `std::backtrace::Backtrace` fields are included: Kani's toolchain is a nightly, the harness crate enables
 `error_generic_member_access` (the expansion's `provide()` needs it whenever a backtrace field is detected).
+
+Structure: the systematic core is one layout per program (a finding names its layout); the thorough tier adds the
+wider product in groups of <= 8 layouts per program (Kani's per-harness code generation dominates the cost).
+Layouts with an ignored field next to other fields are grouped apart (`grp_*_ign_*`).
+
+Findings on the tree this was written against (each reproduced natively; repairs in /tmp/C09_fix{1,2,3}.diff):
+ 1. indices kept by error.rs are positions among the *enabled* fields but are used as positions among all fields
+    (enum patterns, the type for the inferred generic bound, the backtrace pattern of provide()):
+    `enum E { V { #[error(ignore)] a: X, #[error(source)] b: Y } }` returns `a`.
+ 2. `struct S(#[error(ignore)] i32, Backtrace)` panics the macro (index out of bounds in infer_source_field).
+ 3. a `Box<dyn Error>` source next to a detected backtrace does not compile (provide() calls `Error::provide(&box, ..)`);
+    carried by the two/four PROVIDE_BOXED programs only.
 """
 import collections
 import itertools
@@ -165,6 +177,7 @@ CORE = [
     ("named", (N("source"), N("other", attr=IGN))),              # ignored field after
     ("named", (N("source"), N("backtrace", "bt"))), ("named", (N("backtrace", "bt"), N("source"))),
     ("named", (N("source", attr=NS), N("other", attr=S))),
+    ("named", (N("source"), N("other", attr=S))), ("named", (N("other", attr=S), N("source"))),   # explicit beats the name
     # three fields
     ("tuple", (P(), P(attr=S), P())), ("tuple", (P(), P(attr=IGN), P(attr=S))), ("tuple", (P(), P(), P("i32", IGN))),
     ("tuple", (P("bt"), P("i32", IGN), P(attr=S))),
@@ -358,6 +371,10 @@ pub fn post_source(v: &Ty, r: &Ret<'_>) -> bool {
     return items, ctors, exps
 
 
+# SPLIT_NOTE: Kani de-duplicates the concrete-playback tests of one harness by their input values and may keep the test of a
+# `cover!` instead of the one of the failed assertion (then the core finds no counterexample to replay). The harness therefore
+# draws one extra symbolic bool: `true` runs the reachability probes, `false` asserts the post-condition. The bool is independent of
+# the value under test, so the assertion is still checked for every value; the two kinds of trace can no longer coincide.
 HARNESS_HEAD = "        let v = core::mem::ManuallyDrop::new(%s);   // drop glue (Backtrace, Box) is not part of the obligation\n" \
                "        let v: &%s = &v;\n        let r = <%s as Error>::source(v);\n"
 
@@ -372,9 +389,9 @@ def struct_program(key, title, layouts, with_contract=False, with_control=False)
         items.append(it)
         exps.append(exp)
         blocks.append("        {\n    " + (HARNESS_HEAD % (c, "Ty" + sfx, "Ty" + sfx)).replace("\n        ", "\n            ") +
-                      '    kani::cover!(r.is_%s(), "expected branch reachable (%s)");\n' % ("some" if exp is not None else "none", label) +
-                      '            assert!(post_source%s(v, &r), "post_source %s");\n        }' % (sfx, label))
-    extra_fn = extra_h = ""
+                      '            if kani::any::<bool>() {   // reachability probes on their own path, see SPLIT_NOTE\n' +
+                      '                kani::cover!(r.is_%s(), "expected branch reachable (%s)");\n' % ("some" if exp is not None else "none", label) +
+                      '            } else {\n                assert!(post_source%s(v, &r), "post_source %s");\n            }\n        }' % (sfx, label))
     hs = [Harness("ob_source", "forall field values. post_source(v, v.source()); EXPECT = %s"
                   % "; ".join("%s: %s" % (l[3], exp_text(e)) for l, e in zip(layouts, exps)),
                   fn="<St* as Error>::source (expansion of #[derive(derive_more::Error)])", cover_min=len(layouts))]
@@ -397,7 +414,9 @@ def enum_program(key, title, variants, generic="", pos=1, with_contract=False, w
         asserts = "".join('        if matches!(v, En::%s { .. }) { assert!(post_source(v, &r), "post_source %s = %s"); }\n'
                           % (v[0], v[0], layout_key("enum", v[1], v[2], generic, v[3])) for v in variants)
         asserts += '        assert!(post_source(v, &r), "post_source");\n'
-    body = "    #[kani::proof]\n    fn ob_source() {\n" + (HARNESS_HEAD % ("mk()", "Ty", "Ty")) + covers + asserts + "    }\n"
+    body = "    #[kani::proof]\n    fn ob_source() {\n" + (HARNESS_HEAD % ("mk()", "Ty", "Ty")) + \
+           "        if kani::any::<bool>() {   // reachability probes on their own path, see SPLIT_NOTE\n" + covers.replace("\n        ", "\n            ").replace("        kani", "            kani", 1) + \
+           "        } else {\n" + asserts.replace("\n        ", "\n            ").replace("        ", "            ", 1) + "        }\n    }\n"
     fn = "<En as Error>::source (expansion of #[derive(derive_more::Error)])"
     hs = [Harness("ob_source", "forall variants, field values. post_source(v, v.source()); EXPECT = %s"
                   % "; ".join("%s: %s" % (v[0], exp_text(e)) for v, e in zip(variants, exps)), fn=fn, cover_min=n + 2)]
@@ -468,7 +487,8 @@ def singles(tier):
     for shape, fields in CORE:
         add("enum", shape, fields)
         # quick: the struct form as well wherever struct and variant rendering can differ (ignored fields) and for <= 1 field
-        if tier == "thorough" or any(ign(f) for f in fields) or len(fields) <= 1:
+        # ... and wherever the selected field is not the first one (member access `self.<i>` vs pattern binding)
+        if tier == "thorough" or any(ign(f) for f in fields) or len(fields) <= 1 or (expect(shape, fields) or 0) > 0:
             add("struct", shape, fields)
     for shape, fields in QUICK_FLAVOURED:
         for fs, g in flavours(shape, fields):
@@ -479,6 +499,8 @@ def singles(tier):
                 add("enum", shape, fs, g)
             else:
                 add("enum", shape, fs, g)
+                if fs[expect(shape, fs) or 0].ty == "box" or any(f.ty == "box" for f in fs):
+                    add("struct", shape, fs, g)       # member access on a Box<dyn Error> field
     for shape, fields in VIGN + (VIGN_MORE if tier == "thorough" else []):
         add("enum", shape, fields, vign=True)
     for shape, fields in PROVIDE_BOXED:
@@ -496,7 +518,7 @@ THOROUGH_N3 = 600
 def tail(seed):
     """thorough only: the wider product, GROUP layouts per program (Kani's per-harness code generation, ~1.4 s, is the
     cost driver; one enum with 8 variants under test / 8 structs behind one harness cost the same as one layout).
-    Returns [(container, generic, [(shape, fields, vign)])]."""
+    Returns [(container, tag, generic, [(shape, fields, vign)])]."""
     rng = random.Random(seed)
     full = []
     for n in (1, 2):
@@ -517,7 +539,10 @@ def tail(seed):
             return
         seen.add(k)
         check_in_family(shape, fields)
-        buckets.setdefault((container, generic), []).append((shape, fields, vign))
+        # layouts with an ignored field next to other fields get programs of their own (`.._ign_..`): a defect in the handling
+        # of ignored fields then does not take the groups of plain layouts down with it
+        tag = generic + ("_ign" if len(fields) >= 2 and any(ign(f) for f in fields) else "")
+        buckets.setdefault((container, tag, generic), []).append((shape, fields, vign))
 
     for shape, fields in pick:
         # struct and variant rendering differ only in pattern vs member access: take both whenever an ignored field precedes
@@ -532,9 +557,9 @@ def tail(seed):
             for fs, g in (fl if shifted else [rng.choice(fl)] if fl else []):
                 put(rng.choice(("struct", "enum")), g, shape, fs)
     groups = []
-    for (container, generic), ls in buckets.items():
+    for (container, tag, generic), ls in buckets.items():
         for i in range(0, len(ls), GROUP):
-            groups.append((container, generic, ls[i:i + GROUP]))
+            groups.append((container, tag, generic, ls[i:i + GROUP]))
     return groups
 
 
@@ -555,10 +580,10 @@ def family(tier, seed):
     n_tail = 0
     if tier == "thorough":
         count = collections.Counter()
-        for container, generic, ls in tail(seed):
-            idx = count[(container, generic)]
-            count[(container, generic)] += 1
-            key = "grp_%s%s_%03d" % ({"struct": "st", "enum": "en"}[container], "_" + generic if generic else "", idx)
+        for container, tag, generic, ls in tail(seed):
+            idx = count[(container, tag)]
+            count[(container, tag)] += 1
+            key = "grp_%s%s_%03d" % ({"struct": "st", "enum": "en"}[container], "_" + tag.strip("_") if tag else "", idx)
             n_tail += len(ls)
             if container == "struct":
                 lay = [(sh, fs, generic, "St%d = %s" % (j, layout_key("struct", sh, fs, generic, False))) for j, (sh, fs, _) in enumerate(ls)]
